@@ -1,7 +1,7 @@
 (* C05 -- generated kerning applies the UFO kerning value to every pair, once.
    (theorems are added to this file as they are proved; see Kern/ModelProofs.v) *)
 From Coq Require Import QArith Qcanon.
-From U2F Require Import Base.Prelude Geometry.Model Kern.Model Kern.ModelProofs.
+From U2F Require Import Base.Prelude Geometry.Model Kern.Model Kern.ModelProofs Kern.UfoProofs.
 Open Scope Qc_scope.
 
 Theorem C05_specific_pair_first_definition_wins : forall rules a b v,
@@ -39,3 +39,42 @@ Theorem C05_most_specific_rule_wins : forall rules a b,
   ((forall r, In r rules -> covers r a b = false) -> lookup_value (sort_rules rules) a b = qc0).
 Proof. exact lookup_most_specific_rule_wins. Qed.
 Print Assumptions C05_most_specific_rule_wins.
+
+(* THE CONNECTION TO THE UFO: for every kerning dictionary over valid groups (distinct group names,
+   pairwise disjoint members per side, group names that are not glyph names, one entry per key) and
+   every pair of glyphs of the font, the lookup compiled from the writer's pair list -- pairs naming
+   unknown glyphs dropped, zero class/class pairs dropped, values quantised, rules sorted -- gives
+   the pair exactly its UFO kerning value (glyph/glyph, then glyph/group, then group/glyph, then
+   group/group, else 0), quantised. *)
+Theorem C05_compiled_lookup_is_ufo_kerning : forall g1s g2s gl q k,
+  wf_ufo g1s g2s gl k -> forall a b, mem a gl = true -> mem b gl = true ->
+  lookup_value (sort_rules (kerning_pairs g1s g2s gl q k)) a b = quantize (ufo_kern g1s g2s k a b) q.
+Proof. exact lookup_is_ufo_kerning. Qed.
+Print Assumptions C05_compiled_lookup_is_ufo_kerning.
+
+(* the groups the writer itself builds (getKerningGroups: pruned to the glyph set, a group skipped when a
+   member already belongs to an accepted one, first definition of a name wins) always are valid groups *)
+Theorem C05_writer_groups_are_valid : forall prefix gl gs, groups_ok (kerning_groups prefix gl gs).
+Proof. exact kerning_groups_ok. Qed.
+Print Assumptions C05_writer_groups_are_valid.
+
+(* hence, with the writer's own groups, for EVERY font.groups dictionary *)
+Theorem C05_compiled_lookup_is_ufo_kerning_for_any_groups : forall prefix1 prefix2 gl ufo_groups q k a b,
+  let g1s := kerning_groups prefix1 gl ufo_groups in
+  let g2s := kerning_groups prefix2 gl ufo_groups in
+  (forall g, mem g gl = true -> assoc g g1s = None /\ assoc g g2s = None) ->
+  NoDup (map fst k) -> mem a gl = true -> mem b gl = true ->
+  lookup_value (sort_rules (kerning_pairs g1s g2s gl q k)) a b = quantize (ufo_kern g1s g2s k a b) q.
+Proof. exact lookup_is_ufo_kerning_pruned_groups. Qed.
+Print Assumptions C05_compiled_lookup_is_ufo_kerning_for_any_groups.
+
+(* the hypotheses are satisfiable and the statement is not vacuous: glyphs 1,2,3; group 10 = {1} on side 1,
+   group 20 = {2,3} on side 2; entries (10,20) = -50, (1,3) = 7: pair (1,2) gets the class value, (1,3) the exception *)
+Example C05_ufo_example :
+  let g1s := [([10%Z], [[1%Z]])] in let g2s := [([20%Z], [[2%Z]; [3%Z]])] in
+  let gl := [[1%Z]; [2%Z]; [3%Z]] in
+  let k := [(([10%Z], [20%Z]), Q2Qc (-50)); (([1%Z], [3%Z]), Q2Qc 7)] in
+  lookup_value (sort_rules (kerning_pairs g1s g2s gl qc1 k)) [1%Z] [2%Z] = Q2Qc (-50) /\
+  lookup_value (sort_rules (kerning_pairs g1s g2s gl qc1 k)) [1%Z] [3%Z] = Q2Qc 7 /\
+  ufo_kern g1s g2s k [1%Z] [2%Z] = Q2Qc (-50) /\ ufo_kern g1s g2s k [1%Z] [3%Z] = Q2Qc 7.
+Proof. vm_compute. repeat split; reflexivity. Qed.
